@@ -132,3 +132,408 @@ Proof.
     + right. destruct (fl_crossings fb); [reflexivity|discriminate].
   - exact H13.
 Qed.
+
+(** * Facts that hold for every flat record *)
+
+Lemma off_0 : forall fb, off fb 0 = 0.
+Proof. reflexivity. Qed.
+
+Lemma off_S : forall fb f, off fb (S f) = off fb f + nlevels fb f.
+Proof.
+  intros fb f. unfold off. rewrite seq_S, fold_left_app. reflexivity.
+Qed.
+
+Lemma off_le : forall fb f g, f <= g -> off fb f <= off fb g.
+Proof.
+  intros fb f g H. induction H as [|g H IH]; [lia|]. rewrite off_S. lia.
+Qed.
+
+Lemma off_mono : forall fb f g, f < g -> off fb f + nlevels fb f <= off fb g.
+Proof.
+  intros fb f g H. rewrite <- off_S. apply off_le. lia.
+Qed.
+
+(** every range of [map_block_trial_ranges] lies within the trials *)
+Lemma ranges_loop_bound : forall fb fuel start e step stop,
+  Forall (fun r => fst r < stop /\ snd r <= trials fb) (ranges_loop fb fuel start e step stop).
+Proof.
+  intros fb fuel. induction fuel as [|fuel IH]; intros start e step stop; simpl; [constructor|].
+  destruct (start <? stop) eqn:E; [|constructor].
+  constructor; [|apply IH].
+  simpl. apply Nat.ltb_lt in E. split; [exact E|apply Nat.le_min_r].
+Qed.
+
+Lemma f1_ranges_bound : forall fb wb rs,
+  map_block_trial_ranges fb wb = Some rs ->
+  Forall (fun r => fst r < T fb /\ snd r <= T fb) rs.
+Proof.
+  intros fb wb rs H.
+  assert (W : forall fuel start e step stop, stop <= trials fb ->
+            Forall (fun r => fst r < T fb /\ snd r <= T fb) (ranges_loop fb fuel start e step stop)).
+  { intros fuel start e step stop Hs.
+    eapply Forall_impl; [|apply ranges_loop_bound].
+    intros r [H1 H2]. unfold T. unfold trials in *. split; lia. }
+  assert (SomeE : forall a b : list (nat * nat), Some a = Some b -> a = b) by (intros a b Q; congruence).
+  unfold map_block_trial_ranges in H. destruct wb as [g|].
+  - destruct ((g_trials g <=? g_preamble g) && (0 <? trials fb - g_preamble g)); [discriminate|].
+    destruct (fl_alignment fb).
+    + destruct (post_preamble_size fb <? g_preamble g); [discriminate|].
+      apply SomeE in H. rewrite <- H. apply W. lia.
+    + apply SomeE in H. rewrite <- H. apply W. lia.
+    + apply SomeE in H. rewrite <- H. apply W. lia.
+  - apply SomeE in H. rewrite <- H. apply W. lia.
+Qed.
+
+Lemma f1_ranges_none : forall fb,
+  map_block_trial_ranges fb None = Some (if 0 <? T fb then [(0, T fb)] else []).
+Proof.
+  intros fb. unfold map_block_trial_ranges, T. f_equal.
+  assert (G : forall n, n = trials fb ->
+              ranges_loop fb (S n) 0 n n n = if 0 <? n then [(0, n)] else []).
+  { intros n Hn. destruct n as [|k].
+    - reflexivity.
+    - cbn [ranges_loop]. rewrite <- Hn.
+      replace (0 <? S k) with true by (symmetry; apply Nat.ltb_lt; lia).
+      replace (0 + S k <? S k) with false by (symmetry; apply Nat.ltb_ge; lia).
+      rewrite Nat.min_id. reflexivity. }
+  apply (G (trials fb) eq_refl).
+Qed.
+
+(** [get_trial_numbers] when the sustain count of the geometry is 1 *)
+Lemma f1_trial_numbers : forall fb f b wb rs,
+  geometry_sustain fb wb f = 1 ->
+  map_block_trial_ranges fb wb = Some rs ->
+  get_trial_numbers fb f b wb =
+  Some (flat_map (fun r =>
+          let p := (if (b <? 0)%Z then Z.of_nat (snd r) + b else Z.of_nat (fst r) + b)%Z in
+          if ((Z.of_nat (fst r) <=? p) && (p <? Z.of_nat (snd r)))%Z then [Z.to_nat p] else []) rs).
+Proof.
+  intros fb f b wb rs Hsu Hrs. unfold get_trial_numbers. rewrite Hsu, Hrs.
+  cbn [option_map]. f_equal. clear Hrs.
+  apply flat_map_ext. intros r.
+  replace (Z.of_nat 1 * b)%Z with b by lia.
+  cbv zeta. cbn [seq map]. rewrite Nat.add_0_r. reflexivity.
+Qed.
+
+(** * The layout on F1 *)
+Section F1.
+Variable fb : flat.
+Hypothesis HF1 : in_f1 fb = true.
+
+Let FF : F1facts fb := in_f1_facts fb HF1.
+
+Lemma f1_is_complex : forall f, is_complex fb f = false.
+Proof.
+  intros f. unfold is_complex, factor_at. destruct (nth_error (fl_design fb) f) as [fd|] eqn:E; auto.
+  pose proof (f1_factor fb FF f fd E) as H. unfold factor_f1 in H.
+  repeat rewrite andb_true_iff in H. destruct H as [[H _] _].
+  apply negb_true_iff. exact H.
+Qed.
+
+Lemma f1_simple_act : simple_act fb = seq 0 (nf fb).
+Proof.
+  unfold simple_act. rewrite (f1_act fb FF). apply filter_all_true.
+  intros f _. rewrite f1_is_complex. reflexivity.
+Qed.
+
+Lemma f1_complex_act : complex_act fb = [].
+Proof.
+  unfold complex_act. apply filter_all_false. intros f _. apply f1_is_complex.
+Qed.
+
+Lemma f1_nlevels_pos : forall f, f < nf fb -> 0 < nlevels fb f.
+Proof.
+  intros f Hf. unfold nlevels, factor_at.
+  destruct (nth_error (fl_design fb) f) as [fd|] eqn:E.
+  - pose proof (f1_factor fb FF f fd E) as H. unfold factor_f1 in H.
+    repeat rewrite andb_true_iff in H. destruct H as [[_ H] _]. apply Nat.ltb_lt. exact H.
+  - apply nth_error_None in E. unfold nf in Hf. lia.
+Qed.
+
+Lemma f1_applies_to_trial : forall f n, 1 <= n -> applies_to_trial fb f n = true.
+Proof.
+  intros f n Hn. unfold applies_to_trial, factor_at.
+  destruct (nth_error (fl_design fb) f) as [fd|] eqn:E; auto.
+  pose proof (f1_factor fb FF f fd E) as H. unfold factor_f1 in H.
+  destruct (ff_window fd) as [w|]; auto.
+  repeat rewrite andb_true_iff in H. destruct H as [_ [[_ H2] H3]].
+  apply Nat.eqb_eq in H2. apply Nat.eqb_eq in H3. rewrite H2, H3.
+  rewrite Nat.mod_1_r. apply andb_true_iff. split; [apply Nat.leb_le; lia|reflexivity].
+Qed.
+
+Lemma f1_applies : forall f t, applies_at fb f t = true.
+Proof.
+  intros f t. unfold applies_at. apply f1_applies_to_trial. lia.
+Qed.
+
+Lemma f1_vpt : vpt fb = off fb (nf fb).
+Proof.
+  unfold vpt, variables_per_trial. rewrite f1_simple_act. reflexivity.
+Qed.
+
+Lemma f1_off_vpt : forall f, f < nf fb -> off fb f + nlevels fb f <= vpt fb.
+Proof.
+  intros f Hf. rewrite f1_vpt. apply off_mono. exact Hf.
+Qed.
+
+Lemma fold_applies_count : forall f (l : list nat) acc,
+  fold_left (fun acc t => if applies_at fb f t then acc + nlevels fb f else acc) l acc
+  = acc + length l * nlevels fb f.
+Proof.
+  intros f l. induction l as [|t l IH]; intros acc; simpl; [lia|].
+  rewrite f1_applies, IH. lia.
+Qed.
+
+Lemma f1_vff : forall f, variables_for_factor fb f 0 0 = T fb * nlevels fb f.
+Proof.
+  intros f. unfold variables_for_factor. cbn [Nat.eqb].
+  rewrite fold_applies_count, seq_length. unfold T, trials. lia.
+Qed.
+
+Lemma f1_vps : variables_per_sample fb = T fb * vpt fb.
+Proof.
+  unfold variables_per_sample. rewrite (f1_act fb FF), f1_vpt.
+  induction (nf fb) as [|n IH].
+  - rewrite off_0. simpl. lia.
+  - rewrite seq_S, fold_left_app, IH, off_S. cbn [fold_left Nat.add]. rewrite f1_vff. lia.
+Qed.
+
+Lemma f1_grid : grid_variables fb = T fb * vpt fb.
+Proof. reflexivity. Qed.
+
+Lemma f1_simple_offset : forall n s f, s <= f < s + n ->
+  simple_offset fb (seq s n) f = Some (off fb f - off fb s).
+Proof.
+  induction n as [|n IH]; intros s f H; [lia|].
+  cbn [seq simple_offset]. destruct (s =? f) eqn:E.
+  - apply Nat.eqb_eq in E. subst. f_equal. lia.
+  - apply Nat.eqb_neq in E. rewrite IH by lia. cbn [option_map]. f_equal.
+    pose proof (off_mono fb s f ltac:(lia)) as H1. rewrite off_S. lia.
+Qed.
+
+Lemma f1_first_var : forall f l, f < nf fb -> l < nlevels fb f ->
+  first_variable_for_level fb f l = Some (off fb f + l).
+Proof.
+  intros f l Hf Hl. unfold first_variable_for_level. rewrite f1_is_complex.
+  replace (l <? nlevels fb f) with true by (symmetry; apply Nat.ltb_lt; exact Hl).
+  rewrite f1_simple_act, f1_simple_offset by lia. cbn [option_map]. rewrite off_0. f_equal. lia.
+Qed.
+
+Lemma f1_prev : forall f t, previous_trials_count fb f t = t - 1.
+Proof.
+  intros f t. unfold previous_trials_count. rewrite filter_all_true.
+  - apply seq_length.
+  - intros x _. apply f1_applies.
+Qed.
+
+Lemma f1_encode_any : forall f l trial, f < nf fb -> l < nlevels fb f ->
+  encode_variable fb f l trial = Some (gvar fb (trial - 1) f l).
+Proof.
+  intros f l trial Hf Hl. unfold encode_variable.
+  rewrite f1_first_var, f1_is_complex, f1_prev by assumption.
+  unfold gvar, vpt. f_equal. lia.
+Qed.
+
+Lemma f1_encode : forall f l t, f < nf fb -> l < nlevels fb f ->
+  encode_variable fb f l (S t) = Some (gvar fb t f l).
+Proof.
+  intros f l t Hf Hl. rewrite f1_encode_any by assumption. do 2 f_equal. lia.
+Qed.
+
+Lemma f1_get_variable : forall f l t, f < nf fb -> l < nlevels fb f ->
+  get_variable fb (S t) f l = COk (gvar fb t f l).
+Proof.
+  intros f l t Hf Hl. unfold get_variable. rewrite f1_encode by assumption. reflexivity.
+Qed.
+
+Lemma gvar_range : forall t f l, t < T fb -> f < nf fb -> l < nlevels fb f ->
+  1 <= gvar fb t f l <= T fb * vpt fb.
+Proof.
+  intros t f l Ht Hf Hl. pose proof (f1_off_vpt f Hf) as H. unfold gvar. nia.
+Qed.
+
+Lemma off_level_inj : forall f l f' l', l < nlevels fb f -> l' < nlevels fb f' ->
+  off fb f + l = off fb f' + l' -> f = f' /\ l = l'.
+Proof.
+  intros f l f' l' Hl Hl' H.
+  destruct (Nat.lt_trichotomy f f') as [C|[C|C]].
+  - pose proof (off_mono fb f f' C). lia.
+  - subst. split; lia.
+  - pose proof (off_mono fb f' f C). lia.
+Qed.
+
+Lemma gvar_inj : forall t f l t' f' l',
+  f < nf fb -> l < nlevels fb f -> f' < nf fb -> l' < nlevels fb f' ->
+  gvar fb t f l = gvar fb t' f' l' -> t = t' /\ f = f' /\ l = l'.
+Proof.
+  intros t f l t' f' l' Hf Hl Hf' Hl' H.
+  pose proof (f1_off_vpt f Hf) as B. pose proof (f1_off_vpt f' Hf') as B'.
+  unfold gvar in H.
+  assert (E : t = t' /\ off fb f + l = off fb f' + l').
+  { apply (Nat.div_mod_unique (vpt fb)); lia. }
+  destruct E as [E1 E2]. split; [exact E1|].
+  apply off_level_inj; assumption.
+Qed.
+
+Lemma off_decompose : forall n r, r < off fb n ->
+  exists f l, f < n /\ l < nlevels fb f /\ r = off fb f + l.
+Proof.
+  induction n as [|n IH]; intros r Hr.
+  - rewrite off_0 in Hr. lia.
+  - rewrite off_S in Hr. destruct (Nat.lt_ge_cases r (off fb n)) as [C|C].
+    + destruct (IH r C) as [f [l [H1 [H2 H3]]]]. exists f, l. repeat split; auto.
+    + exists n, (r - off fb n). repeat split; lia.
+Qed.
+
+Lemma gvar_surj : forall v, 1 <= v <= T fb * vpt fb ->
+  exists t f l, t < T fb /\ f < nf fb /\ l < nlevels fb f /\ v = gvar fb t f l.
+Proof.
+  intros v Hv.
+  assert (V : vpt fb <> 0) by nia.
+  pose proof (Nat.div_mod (v - 1) (vpt fb) V) as D.
+  pose proof (Nat.mod_upper_bound (v - 1) (vpt fb) V) as M.
+  destruct (off_decompose (nf fb) ((v - 1) mod vpt fb)) as [f [l [H1 [H2 H3]]]].
+  { rewrite <- f1_vpt. exact M. }
+  exists ((v - 1) / vpt fb), f, l. repeat split; auto.
+  - apply Nat.div_lt_upper_bound; [exact V|]. nia.
+  - unfold gvar. nia.
+Qed.
+
+(** ** Variable lists *)
+Lemma f1_simple_range_vars : forall f l s e,
+  simple_range_vars fb (off fb f + l) s e = map (fun t => gvar fb t f l) (seq s (e - s)).
+Proof.
+  intros f l s e. unfold simple_range_vars. rewrite (map_seq_shift0 (fun t => gvar fb t f l)).
+  apply map_ext. intros i. unfold gvar, vpt. lia.
+Qed.
+
+Lemma f1_build_variable_lists : forall f l wb rs, f < nf fb -> l < nlevels fb f ->
+  map_block_trial_ranges fb wb = Some rs ->
+  build_variable_lists fb f l wb =
+  Some (map (fun r => map (fun t => gvar fb t f l) (seq (fst r) (snd r - fst r))) rs).
+Proof.
+  intros f l wb rs Hf Hl Hrs. unfold build_variable_lists.
+  rewrite f1_first_var, Hrs by assumption. f_equal.
+  apply map_ext. intros r. rewrite f1_is_complex. apply f1_simple_range_vars.
+Qed.
+
+Lemma f1_var_lists : forall f l wb rs, f < nf fb -> l < nlevels fb f ->
+  map_block_trial_ranges fb wb = Some rs ->
+  var_lists fb f l wb =
+  COk (map (fun r => map (fun t => gvar fb t f l) (seq (fst r) (snd r - fst r))) rs).
+Proof.
+  intros f l wb rs Hf Hl Hrs. unfold var_lists.
+  rewrite (f1_build_variable_lists f l wb rs Hf Hl Hrs), Hrs.
+  destruct rs; reflexivity.
+Qed.
+
+(** the whole-sequence case ([within_block = None]) *)
+Lemma f1_var_lists_none : forall f l, f < nf fb -> l < nlevels fb f ->
+  var_lists fb f l None =
+  COk (if 0 <? T fb then [map (fun t => gvar fb t f l) (seq 0 (T fb))] else []).
+Proof.
+  intros f l Hf Hl. rewrite (f1_var_lists f l None _ Hf Hl (f1_ranges_none fb)).
+  destruct (0 <? T fb); cbn [map fst snd]; [rewrite Nat.sub_0_r|]; reflexivity.
+Qed.
+
+(** ** Consistency *)
+Definition cons_row (t f : nat) : req :=
+  (Card.EQ, 1%Z, map (fun l => Z.of_nat (gvar fb t f l)) (seq 0 (nlevels fb f))).
+
+Definition cons_grid (t0 n : nat) : list req :=
+  flat_map (fun t => map (cons_row t) (seq 0 (nf fb))) (seq t0 n).
+
+Lemma f1_cons_factors : forall t n s,
+  cons_factors fb (seq s n) (1 + Z.of_nat (t * vpt fb + off fb s))%Z
+  = (map (cons_row t) (seq s n), (1 + Z.of_nat (t * vpt fb + off fb (s + n)))%Z).
+Proof.
+  intros t. induction n as [|n IH]; intros s.
+  - cbn [seq cons_factors map]. rewrite Nat.add_0_r. reflexivity.
+  - cbn [seq cons_factors map].
+    replace (1 + Z.of_nat (t * vpt fb + off fb s) + zn (nlevels fb s))%Z
+      with (1 + Z.of_nat (t * vpt fb + off fb (S s)))%Z by (rewrite off_S; unfold zn; lia).
+    rewrite IH. replace (S s + n) with (s + S n) by lia. f_equal. f_equal.
+    unfold cons_row. f_equal. rewrite zrange_map. apply map_ext. intros i. unfold gvar. lia.
+Qed.
+
+Lemma f1_cons_trials : forall n t,
+  cons_trials fb n (1 + Z.of_nat (t * vpt fb))%Z
+  = (cons_grid t n, (1 + Z.of_nat ((t + n) * vpt fb))%Z).
+Proof.
+  induction n as [|n IH]; intros t.
+  - cbn [cons_trials]. unfold cons_grid. cbn [seq flat_map]. rewrite Nat.add_0_r. reflexivity.
+  - cbn [cons_trials]. rewrite f1_simple_act.
+    replace (1 + Z.of_nat (t * vpt fb))%Z with (1 + Z.of_nat (t * vpt fb + off fb 0))%Z
+      by (rewrite off_0; lia).
+    rewrite f1_cons_factors. cbn [Nat.add]. rewrite <- f1_vpt.
+    replace (t * vpt fb + vpt fb) with (S t * vpt fb) by lia.
+    rewrite IH. unfold cons_grid. cbn [seq flat_map].
+    replace (S t + n) with (t + S n) by lia. reflexivity.
+Qed.
+
+Lemma f1_cons_trials_all :
+  cons_trials fb (T fb) 1%Z =
+  (flat_map (fun t => map (fun f => (Card.EQ, 1%Z,
+                                     map (fun l => Z.of_nat (gvar fb t f l)) (seq 0 (nlevels fb f))))
+                          (seq 0 (nf fb)))
+            (seq 0 (T fb)),
+   (1 + Z.of_nat (T fb * vpt fb))%Z).
+Proof.
+  change (cons_trials fb (T fb) 1%Z = (cons_grid 0 (T fb), (1 + Z.of_nat (T fb * vpt fb))%Z)).
+  pose proof (f1_cons_trials (T fb) 0) as H. cbn [Nat.mul Nat.add Z.of_nat Z.add] in H. exact H.
+Qed.
+
+Lemma f1_consistency : forall fresh,
+  apply_consistency fb fresh =
+  COk {| ct_fresh := fresh; ct_clauses := [];
+         ct_requests :=
+           flat_map (fun t => map (fun f => (Card.EQ, 1%Z,
+                                             map (fun l => Z.of_nat (gvar fb t f l)) (seq 0 (nlevels fb f))))
+                                  (seq 0 (nf fb)))
+                    (seq 0 (T fb)) |}.
+Proof.
+  intros fresh. unfold apply_consistency. rewrite f1_cons_trials_all, f1_complex_act.
+  cbn [cons_complex]. rewrite app_nil_r. reflexivity.
+Qed.
+
+(** ** Preambles *)
+Lemma f1_post_preamble : post_preamble_size fb = 0.
+Proof.
+  unfold post_preamble_size. rewrite (f1_align_pre fb FF), fold_max_zero; [reflexivity|].
+  apply (f1_preambles fb FF).
+Qed.
+
+Lemma f1_preamble : forall i, preamble_size fb i = 0.
+Proof.
+  intros i. unfold preamble_size.
+  assert (N : nth i (fl_preambles fb) 0 = 0).
+  { destruct (nth_in_or_default i (fl_preambles fb) 0) as [H|H]; [|exact H].
+    apply (f1_preambles fb FF). exact H. }
+  destruct (fl_alignment fb); [apply f1_post_preamble|exact N|exact N].
+Qed.
+
+End F1.
+
+(** The hypothesis is satisfiable: two plain factors with 2 and 3 levels fully
+    crossed over 6 trials. *)
+Definition ex_level : flevel :=
+  {| lv_name := String.EmptyString; lv_weight := 1; lv_accepts := [] |}.
+Definition ex_factor (n : nat) : ffactor :=
+  {| ff_name := String.EmptyString; ff_hidden := false; ff_levels := repeat ex_level n;
+     ff_window := None; ff_complex := false |}.
+Definition ex_fb : flat :=
+  {| fl_design := [ex_factor 2; ex_factor 3]; fl_act := [0; 1];
+     fl_crossings := [[0; 1]]; fl_sustains := [1]; fl_weights := [1]; fl_sizes := [6];
+     fl_preambles := [0]; fl_alignment := PostPreamble; fl_alignment_preamble := 0;
+     fl_min_trials := 0; fl_trials := 6; fl_rcc := false; fl_exclude := [];
+     fl_excluded_derived := []; fl_constraints := [FCross; FConsistency];
+     fl_errors_fail := false |}.
+
+Example ex_fb_in_f1 : in_f1 ex_fb = true.
+Proof. vm_compute. reflexivity. Qed.
+
+Example ex_fb_gvar : gvar ex_fb 1 1 2 = 10 /\ get_variable ex_fb 2 1 2 = COk 10.
+Proof. vm_compute. split; reflexivity. Qed.
+
+Print Assumptions f1_consistency.
+Print Assumptions f1_var_lists.
